@@ -23,3 +23,10 @@ Definition psres_eqb : ps_result -> ps_result -> bool := Result_eqb (option_eqb 
 #[global] Instance psres_eqb_ok : EqbSpec psres_eqb.
 Proof. unfold psres_eqb. typeclasses eauto. Qed.
 
+
+(* evaluate something at the implementation's own initial state (whatever its representation is) *)
+Definition ps_at_init {A : Type} (I : Ps2Impl) (d : A) (k : ps_st I -> A) : A :=
+  match ps_init I with Ret s => k s | Panic => d end.
+Lemma ps_at_init_elim : forall (A : Type) (I : Ps2Impl) (d : A) (k : ps_st I -> A) s0,
+  ps_init I = Ret s0 -> ps_at_init I d k = k s0.
+Proof. intros A I d k s0 H. unfold ps_at_init. rewrite H. reflexivity. Qed.
